@@ -318,6 +318,11 @@ class ModelInterp(MiniEval):
                         return self.call_bound(Bound(inst, ci.methods[f.attr]), args, kwargs)
                 if f.attr in ('__post_init__', '__init__', '__init_subclass__'):
                     return None
+            sup = self.globals.get('__super__')
+            if isinstance(sup, Hook) and f.attr in sup.attrs:
+                # a class method / static context: the rule answers for the inherited implementation (its contract is another rule's)
+                args, kwargs = self._args(e, env)
+                return self.apply(sup.attrs[f.attr], args, kwargs)
             raise Unsupported(f'super().{f.attr}')
         if isinstance(f, ast.Attribute):
             recv = self.expr(f.value, env)
